@@ -646,3 +646,124 @@ def r7_desugar_for(text, expr_lit, repl_expr):
         text = text[:kpos] + new_hdr + text[bo:be] + ', None => break, } } }' + text[be:]
         cnt += 1
     return text, cnt
+
+
+def r18_str_match(text):
+    """R18: `match SCRUT { "a" => A, "b" | "c" => B, name => C, _ => D }` (arms whose patterns are string literals; Verus gives literal
+    patterns on `str` no meaning) becomes the if-chain that defines it:
+        { let verif_sK = SCRUT; if verif_sK == "a" { A } else if verif_sK == "b" || verif_sK == "c" { B } else { let name = verif_sK; C } }
+    Only matches in which at least one arm is a string literal and every arm is a string literal, an alternation of them, a plain
+    identifier or `_` are rewritten (the catch-all has to be the last arm). Returns (new text, list of the literals used, count)."""
+    lits = []
+    count = 0
+    while True:
+        toks = [(tk, b, e) for tk, b, e in sig_tokens(text)]
+        done = True
+        for idx, (tk, b, e) in enumerate(toks):
+            if tk != 'ident' or text[b:e] != 'match':
+                continue
+            # scrutinee: up to the first `{` at depth 0
+            depth = 0
+            open_ = None
+            for tk2, b2, e2 in toks[idx + 1:]:
+                w = text[b2:e2]
+                if tk2 == 'punct' and w in '([':
+                    depth += 1
+                elif tk2 == 'punct' and w in ')]':
+                    depth -= 1
+                elif tk2 == 'punct' and w == '{' and depth == 0:
+                    open_ = b2
+                    break
+            if open_ is None:
+                continue
+            close = match_close(text, open_)  # index just past `}`
+            arms = _split_match_arms(text, open_ + 1, close - 1)
+            if arms is None or not any(a['lits'] for a in arms):
+                continue
+            ok = all(a['lits'] or a['bind'] is not None for a in arms) and all(a['lits'] for a in arms[:-1]) and (arms[-1]['bind'] is not None)
+            if not ok:
+                continue
+            k = count
+            var = 'verif_s%d' % k
+            scrut = text[e:open_].strip()
+            parts = []
+            for a in arms:
+                body = a['body'].strip()
+                if not (body.startswith('{') and match_close(body, 0) == len(body)):
+                    body = '{ ' + body + ' }'
+                if a['lits']:
+                    cond = ' || '.join('%s == %s' % (var, l) for l in a['lits'])
+                    parts.append('if %s %s' % (cond, body))
+                    for l in a['lits']:
+                        if l not in lits:
+                            lits.append(l)
+                else:
+                    if a['bind'] != '_':
+                        body = '{ let %s = %s; %s }' % (a['bind'], var, body)
+                    parts.append(body)
+            repl = '{ let %s = %s; %s }' % (var, scrut, ' else '.join(parts))
+            text = text[:b] + repl + text[close:]
+            count += 1
+            done = False
+            break
+        if done:
+            return text, lits, count
+
+
+def _split_match_arms(s, b, e):
+    """arms of a match body s[b:e]: list of dict(lits=[..] or [], bind=name/'_'/None, body=text); None if an arm has another shape (guards,
+    structured patterns)"""
+    toks = [(tk, tb, te) for tk, tb, te in sig_tokens(s, b, e)]
+    arms = []
+    i = 0
+    n = len(toks)
+    while i < n:
+        # pattern up to `=>`
+        pat = []
+        while i < n and not (toks[i][0] == 'punct' and s[toks[i][1]:toks[i][2]] == '=' and i + 1 < n and s[toks[i + 1][1]:toks[i + 1][2]] == '>' and toks[i + 1][1] == toks[i][2]):
+            pat.append(toks[i])
+            i += 1
+        if i >= n:
+            return None if pat else arms
+        i += 2  # skip `=>`
+        lits = []
+        bind = None
+        words = [(tk, s[tb:te]) for tk, tb, te in pat]
+        if all(tk == 'str' or (tk == 'punct' and w == '|') for tk, w in words) and any(tk == 'str' for tk, w in words):
+            lits = [w for tk, w in words if tk == 'str']
+        elif len(words) == 1 and words[0][0] == 'ident':
+            bind = words[0][1]
+        else:
+            return None
+        if i >= n:
+            return None
+        # body: a block, or an expression up to the next `,` at depth 0
+        tk, tb, te = toks[i]
+        if tk == 'punct' and s[tb:te] == '{':
+            close = match_close(s, tb)
+            body = s[tb:close]
+            while i < n and toks[i][1] < close:
+                i += 1
+            if i < n and toks[i][0] == 'punct' and s[toks[i][1]:toks[i][2]] == ',':
+                i += 1
+        else:
+            depth = 0
+            start = tb
+            end_ = e
+            while i < n:
+                tk, tb, te = toks[i]
+                w = s[tb:te]
+                if tk == 'punct' and w in '([{':
+                    depth += 1
+                elif tk == 'punct' and w in ')]}':
+                    depth -= 1
+                elif tk == 'punct' and w == ',' and depth == 0:
+                    end_ = tb
+                    i += 1
+                    break
+                i += 1
+            else:
+                end_ = e
+            body = s[start:end_]
+        arms.append({'lits': lits, 'bind': bind, 'body': body})
+    return arms
